@@ -33,14 +33,14 @@ def run(ctx):
               'the last edge and for NaN; scipy.sparse.coo_matrix sums duplicate coordinates')
     m2 = rule_classmap_2d(ctx, 'C10.R1')
     m1 = rule_classmap_1d(ctx, 'C10.R1')
-    rule_siblings(ctx, 'C10.R2', m2, m1)
-    rule_bins(ctx, 'C10.R4')
-    rule_dimchecks(ctx, 'C10.R5')
+    ctx.rule(rule_siblings, 'C10.R2', m2, m1)
+    ctx.rule(rule_bins, 'C10.R4')
+    ctx.rule(rule_dimchecks, 'C10.R5')
     # the spectrum is computed from the arrays as canonicalised by ensure_2d: a vector becomes one column, anything
     # with two or more axes (also a single time sample of several components) is passed on unchanged, values untouched
     from . import c19
-    c19.rule_shape_classes(ctx, 'C10.R6', names=('ensure_2d',))
-    c19.rule_layout_only(ctx, 'C10.R6', names=('ensure_2d',))
+    ctx.rule(c19.rule_shape_classes, 'C10.R6', names=('ensure_2d',))
+    ctx.rule(c19.rule_layout_only, 'C10.R6', names=('ensure_2d',))
     l1.rule_lib_attrs(ctx, 'L1', [HH, HH1, 'emd.spectra.define_hist_bins', 'emd.spectra.define_hist_bins_from_data'],
                       'Hilbert-Huang spectrum')
 
@@ -293,6 +293,46 @@ def rule_classmap_1d(ctx, rid):
                                 if eff[0] == 'setitem' and ls.var in set(subterms(eff[2])):
                                     stores.append((ls, ls2, eff))
         if not stores:
+            # vectorised form: np.add.at(specs, (row index, imf index), values)
+            df = _dense_fill(e.value, e.state)
+            if df is not None and df[0] == 'add.at' and df[1][0] == 'tuple' and len(df[1][1]) == 2:
+                kind, idx, vals, shape = df
+                rows = idx[1][0]
+                dg = _find_digitize(rows)
+                if dg is None:
+                    ctx.undecided(rid, fi, c, 'row index of the accumulation does not come from np.digitize')
+                    continue
+                edges = dg[2][1]
+                table = {}
+                problem = None
+                try:
+                    for E in (ES_THOROUGH if ctx.tier == 'thorough' else ES):
+                        for p in classes(E):
+                            el = ElemEval(E, {S('infr'): p, S('inam'): 'amp'}, edges_terms=(edges,))
+                            r = el.ev(rows)
+                            got = r[1] if r[0] == 'kept' else None
+                            want = _spec_row(p, E)
+                            if got is not None and got < 0:
+                                problem = ('a frequency in class %s (E=%d edges) gets row index %d, which numpy reads '
+                                           'from the end: it is accumulated in the last bin instead of being dropped'
+                                           % (p, E, got))
+                                got = (E - 1) + got
+                            table[(E, repr(p))] = got
+                            if problem is None and got != want:
+                                problem = ('a frequency in class %s (E=%d edges) is %s, expected %s'
+                                           % (p, E, 'accumulated in bin %s' % got if got is not None else 'dropped',
+                                              'bin %d' % want if want is not None else 'dropped'))
+                        if problem:
+                            break
+                except Undecided as u:
+                    ctx.undecided(rid, fi, c, 'index expression outside the class domain: %s' % u)
+                    continue
+                if problem:
+                    ctx.violation(rid, fi, c, problem, expected='below/at-last/above/nan dropped; in(k) -> row k-1')
+                else:
+                    ctx.passed(rid, fi, c, '%d class instances (np.add.at form)' % len(table))
+                    result = table if result is None else result
+                continue
             ctx.undecided(rid, fi, c, 'no per-bin store found')
             continue
         ls, ls2, eff = stores[0]
